@@ -1,6 +1,9 @@
 import OrsoVerif.Model.Sanitise
 import OrsoVerif.Lemmas.Sanitise
 import OrsoVerif.Lemmas.SanitiseVisible
+import OrsoVerif.Lemmas.SanitiseDeep
+import OrsoVerif.Lemmas.SanitiseUrlPlain
+import OrsoVerif.Model.SanitiseEvent
 /-!
 # C20 — Log sanitiser never emits values of sensitive keys
 
@@ -129,6 +132,49 @@ theorem format_noninterference (h : Json → Str) (can : Bool) (parse : Str → 
     simp only [sanitize, splitOn_append, isolate_message parse _ j d hj ho hno]
   simp only [format, key j₁ d₁ hj₁ ho₁ hno₁, key j₂ d₂ hj₂ ho₂ hno₂, renderJson, cleanObj_congr h _ d₁ d₂ he]
 
+/-! ## the two readings of "at any depth of nested objects"
+
+The implementation (and everything above) treats an array as a value: an array under a sensitive
+key is hidden whole, an array under another key is shown with `str(value)` and not looked into.
+Under the *deep* reading an object inside an array is a nested object too.  Both are defined in
+`Model/Sanitise.lean` (`eraseObj`/`cleanObj` as implemented, `eraseDeepObj`/`cleanDeepObj`); the
+check enforces the first, and these theorems say exactly how the two relate. -/
+
+/-- The deep cleaner satisfies non-interference for the deep erasure (what a sanitiser that
+descends into arrays would guarantee). -/
+theorem cleanDeep_noninterference (h : Json → Str) (c : Colors) (r₁ r₂ : List (Str × Json))
+    (he : eraseDeepObj h r₁ = eraseDeepObj h r₂) : cleanDeepObj h c r₁ = cleanDeepObj h c r₂ :=
+  cleanDeepObj_congr h c r₁ r₂ he
+
+/-- On records without arrays the implemented cleaner *is* the deep cleaner. -/
+theorem clean_eq_cleanDeep_of_arrayFree (h : Json → Str) (c : Colors) (d : List (Str × Json))
+    (ha : arrayFreeObj d = true) : cleanObj h c d = cleanDeepObj h c d :=
+  cleanObj_eq_deep h c d ha
+
+/-- The two erasures coincide unless a sensitive key occurs inside an array that is reachable
+through non-sensitive keys (`readingsAgreeObj`). -/
+theorem readings_agree (h : Json → Str) (d : List (Str × Json)) (ha : readingsAgreeObj d = true) :
+    eraseObj h d = eraseDeepObj h d :=
+  eraseObj_eq_deep h d ha
+
+/-- Hence on such records the implementation meets the deep reading as well. -/
+theorem clean_noninterference_deep_reading (h : Json → Str) (c : Colors) (r₁ r₂ : List (Str × Json))
+    (h₁ : readingsAgreeObj r₁ = true) (h₂ : readingsAgreeObj r₂ = true)
+    (he : eraseDeepObj h r₁ = eraseDeepObj h r₂) : cleanObj h c r₁ = cleanObj h c r₂ :=
+  cleanObj_congr h c r₁ r₂ (by rw [eraseObj_eq_deep h r₁ h₁, eraseObj_eq_deep h r₂ h₂, he])
+
+/-- Counterexample (proved): outside that class the implementation does **not** meet the deep
+reading — `{"a": [{"pwd": "x"}]}` and `{"a": [{"pwd": "y"}]}` have the same deep erasure and are
+cleaned to different texts (the array is printed with `str()`).  This is the behaviour of orso as
+it is; the check does not count it as a violation (see design_notes/C20.md). -/
+theorem implementation_is_shallow :
+    let h : Json → Str := fun _ => ['d']
+    let r₁ : List (Str × Json) := [(['a'], .arr [.obj [(['p', 'w', 'd'], .str ['x'])]])]
+    let r₂ : List (Str × Json) := [(['a'], .arr [.obj [(['p', 'w', 'd'], .str ['y'])]])]
+    eraseDeepObj h r₁ = eraseDeepObj h r₂ ∧ cleanObj h (colorsFor false) r₁ ≠ cleanObj h (colorsFor false) r₂
+    ∧ cleanDeepObj h (colorsFor false) r₁ = cleanDeepObj h (colorsFor false) r₂ := by
+  refine ⟨by rfl, by decide, by decide⟩
+
 /-! ## values under other keys remain visible -/
 
 /-- **Values under other keys remain visible.**  A member whose key is not sensitive and whose
@@ -181,6 +227,31 @@ theorem visible_token_survives (h : Json → Str) (c : Colors) (t : Str) (d : Li
     (hp : ∀ a ∈ t, plainChar a = true) (hv : VisibleAt t d) :
     t <:+: dumps (cleanObj h c d) :=
   dumps_infix t _ hp (visible_tokenIn h c t hp d hv)
+
+/-- **… and in the formatted record.**  The same token occurs verbatim in what
+`LogFormatter.format` returns for the record `header|json` — after the colouriser has translated or
+removed every colour code — provided its first character occurs in no pattern the colouriser
+replaces (`tokenHeadOK`: e.g. a digit 2..9; a token starting with `m` right after the text `\x01OFF`
+*would* be eaten, so some such condition is needed) and the URL rule does not fire on the
+sanitised record (no `://` in it; otherwise a visible value lying between a `://` and an `@` is cut
+by design). -/
+theorem visible_token_in_record (h : Json → Str) (can : Bool) (parse : Str → Option (List (Str × Json)))
+    (header j : Str) (d : List (Str × Json)) (c0 : Char) (t' : Str)
+    (hj : parse j = some d) (ho : firstNonSpace j = some '{')
+    (hno : ∀ fs, fs ≠ [] → fs <:+ splitOn '|' header → parse (joinWith '|' (fs ++ splitOn '|' j)) = none)
+    (hp : ∀ a ∈ c0 :: t', plainChar a = true) (hh : tokenHeadOK c0 = true)
+    (hv : VisibleAt (c0 :: t') d)
+    (hurl : isInfix Gen.Sanitise.urlGuard (sanitize h can parse (header ++ '|' :: j)) = false) :
+    c0 :: t' <:+: format h can parse (header ++ '|' :: j) := by
+  have hs := sanitize_json h can parse header j d hj ho hno
+  have hf : format h can parse (header ++ '|' :: j) = sanitize h can parse (header ++ '|' :: j) := by
+    unfold format
+    simp only [hurl, Bool.false_eq_true, if_false]
+  rw [hf, hs]
+  unfold renderJson
+  apply colorizer_token can c0 t' _ hp hh
+  refine List.IsInfix.trans ?_ (joinWith_infix '|' _ _ (List.mem_append_right _ (List.mem_singleton.mpr rfl)))
+  exact List.infix_cons_iff.mpr (Or.inr (visible_token_survives h (colorsFor true) _ d hp hv))
 
 /-- Colour codes are only ever *inserted* into a visible value: the characters of `str(value)`
 all appear, in order, in the coloured text. -/
@@ -267,7 +338,55 @@ theorem url_first_redacted (u post : Str) (hu : cleanRun Gen.Sanitise.urlClose u
   simp only
   rw [redactUrlF_fuel _ (post.length + 1) post (by simp only [List.length_cons] at l ⊢; omega) (Nat.le_succ _)]
 
+/-- **The URL rule composed with the plain-text branch.**  For a record whose message is not a
+JSON object (`isolate … = none`), what `LogFormatter.format` returns — level colour exchange, the
+three quote-colouring substitutions and `strip()` on the last field, the colouriser, then the URL
+rule — does not depend on the user-info `u` of a URL occurring anywhere in it, for user-infos made
+of RFC 3986 user-info characters other than the apostrophe (`UrlSafe`).  Every stage rewrites the
+text around `://u@` without looking at `u` (`renderPlain_sim`), so the URL rule still finds the same
+`://…@` afterwards.  (For a user-info containing a quote character strict non-interference is
+false: the quote changes how *other* quotes of the message are paired; that case is carried by the
+correspondence and the token oracle.) -/
+theorem plain_text_url_userinfo_removed (h : Json → Str) (can : Bool)
+    (parse : Str → Option (List (Str × Json))) (pre post u₁ u₂ : Str)
+    (hu₁ : UrlSafe u₁) (hu₂ : UrlSafe u₂)
+    (hp₁ : isolate parse [] (splitOn '|' (pre ++ urlTail u₁ post)) = none)
+    (hp₂ : isolate parse [] (splitOn '|' (pre ++ urlTail u₂ post)) = none) :
+    format h can parse (pre ++ urlTail u₁ post) = format h can parse (pre ++ urlTail u₂ post) := by
+  have e : ∀ u x y, x ++ urlTail u y = x ++ urlCore u ++ y := by
+    intro u x y; simp [urlTail, urlCore, List.append_assoc]
+  obtain ⟨a, b, o₁, o₂⟩ := renderPlain_sim can u₁ u₂ hu₁ hu₂ ⟨pre, post, e u₁ pre post, e u₂ pre post⟩
+  have guard : ∀ u, isInfix Gen.Sanitise.urlGuard (a ++ urlCore u ++ b) = true := by
+    intro u
+    have : a ++ urlCore u ++ b = a ++ Gen.Sanitise.urlGuard ++ (u ++ [Gen.Sanitise.urlClose] ++ b) := by
+      simp [urlCore, Gen.Sanitise.urlGuard, Gen.Sanitise.urlOpen, List.append_assoc]
+    rw [this]
+    exact isInfix_self _ _ _ (by decide)
+  simp only [format, sanitize, hp₁, hp₂, o₁, o₂, guard, if_true]
+  rw [← e u₁ a b, ← e u₂ a b]
+  exact url_userinfo_removed a b u₁ u₂ (cleanRun_of_urlSafe u₁ hu₁) (cleanRun_of_urlSafe u₂ hu₂)
+
+/-! ## the structured logger -/
+
+/-- **`GoogleLogger.write_event`**: the JSON line it prints and returns for a dict message —
+`clean_record(message, False)`, `str(message) + " *"` under `"message"`, the cleaned members merged
+into the structured log, `orjson.dumps` — is a function of the erased message, for every digest and
+every content of the structured log (severity, labels, source location, span id). -/
+theorem write_event_noninterference (h : Json → Str) (base : List (Str × GVal)) (r₁ r₂ : List (Str × Json))
+    (he : eraseObj h r₁ = eraseObj h r₂) : writeEvent h base r₁ = writeEvent h base r₂ := by
+  simp only [writeEvent, eventLog, cleanObj_congr h _ r₁ r₂ he]
+
 /-! ## non-vacuity -/
+
+/-- `UrlSafe` / `tokenHeadOK` are inhabited by what they are meant for, the isolation fails on a
+plain message for the parser that accepts nothing, and `write_event` on `{"pwd": "x", "n": "v"}`. -/
+example :
+    (∀ c ∈ "user:p%40ss-W0rd".toList, urlSafeChar c = true) ∧ tokenHeadOK '7' = true ∧ tokenHeadOK 'm' = false
+    ∧ isolate (fun _ => none) [] (splitOn '|' "a | see ftp://u:p@h".toList) = none
+    ∧ writeEvent (fun _ => ['9']) [(['s'], .text ['D'])] [(['p', 'w', 'd'], .str ['x']), (['n'], .str ['v'])]
+      = "{\"s\":\"D\",\"message\":\"{'pwd': '<redacted:9>', 'n': 'v'} *\",\"pwd\":\"<redacted:9>\",\"n\":\"v\"}".toList := by
+  refine ⟨by decide, by decide, by decide, by rfl, by decide⟩
+
 
 /-- `VisibleAt` is inhabited two objects down: the token `T1` inside `{"a": {"n": "xT1y"}}`. -/
 example : VisibleAt ['T', '1'] [(['a'], .obj [(['n'], .str ['x', 'T', '1', 'y'])])] :=
